@@ -15,6 +15,12 @@ mod stream_container;
 mod stream_events;
 mod stream_impl;
 mod stream_interests;
+#[cfg(aws_s2n_quic_verif)]
+#[path = "../verif_hooks/data_sender.rs"]
+pub mod verif_data_sender;
+#[cfg(aws_s2n_quic_verif)]
+#[path = "../verif_hooks/flow.rs"]
+pub mod verif_flow;
 
 #[cfg(debug_assertions)]
 pub(crate) mod contract;
